@@ -128,6 +128,7 @@ class PCSim:
     def __init__(self, prog: Program) -> None:
         self.prog = prog
         self.counter = 0
+        self.created: List[Any] = []       # (owning connection, stand-in) for every transport / sender / receiver / channel the interpreted code created
         from .C09 import build_hook
         self.hook = build_hook(prog, self.extra)   # the SDP interpreter hook (re, ipaddress, map/int error behaviour) with the stand-ins in front
         self.mod = prog.modules["rtcpeerconnection"]
@@ -144,6 +145,12 @@ class PCSim:
 
     # ------------------------------------------------------------------ interpreter hook
     def extra(self, call: ast.Call, ev: Evaluator) -> Any:
+        r = self._extra(call, ev)
+        if isinstance(r, Stub) and r.stub_kind in ("ice", "dtls", "sctp", "sender", "receiver", "datachannel", "gatherer"):
+            self.created.append((ev.env.get("self"), r))
+        return r
+
+    def _extra(self, call: ast.Call, ev: Evaluator) -> Any:
         f = call.func
         name = unparse(f)
         me = ev.env.get("self")
